@@ -368,7 +368,10 @@ def run_c19(tier, seed):
             rec = {'kind': 'cli-s3', 'cmd': cmd, 'argv': argv, 'keys': keys, 'label': f'{cmd} {" ".join(argv)}'}
             m_out = ''.join(l[1] + '\n' for l in r['lines'] if l[0] == 'out')
             m_err = ''.join(l[1] + '\n' for l in r['lines'] if l[0] == 'err')
-            if keys and r['status'] == 0 and (so, se, status) != (m_out, m_err, 0):
+            is_detect = lambda l: any(l.startswith(k_ + ': ') for k_ in keys)
+            marked = lambda lines: [l.split(': ')[0] for l in lines if ': Invalid' in l]
+            if keys and r['status'] == 0 and ([l for l in split_lines(so) if is_detect(l)], marked(split_lines(se)), status) != \
+                    ([l for l in split_lines(m_out) if is_detect(l)], marked(split_lines(m_err)), 0):
                 oc.disagreements.append(dict(rec, what='cli output (S3)', impl={'stdout': so[:1500], 'stderr': se[:600], 'status': status},
                                              model={'stdout': m_out[:1500], 'stderr': m_err[:600]}))
             exp_out, exp_err = [], []
@@ -434,7 +437,12 @@ def run_c19(tier, seed):
                 m_err = [l[1] for l in r['lines'] if l[0] == 'err']
                 bad = []
                 if r['status'] == 0:
-                    if (so, se, status) != (''.join(x + '\n' for x in m_out), ''.join(x + '\n' for x in m_err), 0):
+                    # compared: the detect lines (path: Class [(completed)]) in order, which paths are marked invalid, the status;
+                    # the wording of inspect() bodies and of the invalid marker is not part of the property
+                    is_detect = lambda l: any(l.startswith(p_ + ': ') for p_ in paths)
+                    marked = lambda lines: [l.split(': ')[0] for l in lines if ': Invalid' in l]
+                    if ([l for l in split_lines(so) if is_detect(l)], marked(split_lines(se)), status) != \
+                            ([l for l in m_out if is_detect(l)], marked(m_err), 0):
                         oc.disagreements.append(dict(rec, what='cli output', impl={'stdout': so[:1500], 'stderr': se[:800], 'status': status},
                                                      model={'stdout': m_out[:40], 'stderr': m_err[:20], 'status': r['status']}))
                 elif status != 2:
